@@ -33,6 +33,15 @@ T.update({
             "abstract interpretation (inductive invariant step + reference model)"),
 })
 
+T.update({
+    "C08": ("exploration", "Sibling cross-check: on every neighbour map of the scope (exhaustive small scope + fixed-seed family), each search's result equals the first matching vertex of the listing derived from its traversal; attribute values are equal-but-not-identical / unequal / absent, vertices plain or falsy-valued; settings passed to neighbors() must be the traversal's defaults.", "5/C08",
+            "small-scope abstract evaluation, relational check between sibling functions of the same source"),
+    "C16": ("proof", "basic_render evaluated on symbolic strings (vertex renderings are opaque atoms) over graphs with 0/1/2/3 forward neighbours, self-loops, parallel, undirected and incoming-only edges, with and without rfunc/sort; result must match the specified line template; loop uniformity extends the template to any neighbour count.", "5/C16",
+            "abstract interpretation with a symbolic-string domain"),
+    "C20": ("proof", "Bound obligations 0 <= k <= len(population) and k >= 1 under ensurelink at random.sample for every count >= 1 on both connectivity paths (bound prover over the AST with reaching definitions); result structure by abstract evaluation with random at its extremes for the counts in scope; determinism lint.", "5/C20",
+            "bound analysis (monotone transfer rules over reaching definitions) + bounded abstract evaluation with stubbed randomness"),
+})
+
 REASONS_PENDING = "check under construction in this build phase (see DESIGN.md section 5 for the planned static rule)"
 
 
